@@ -502,3 +502,331 @@ theorem toBytes_kernel (z : Int) : GenK.toBytes z true 0 = .ok (bytesInts (intTo
     rw [hn _ (Or.inl ⟨rfl, h8⟩), hout]
 
 end Asn1.Kernels
+
+namespace Asn1.Kernels
+open Py
+
+/-! ### OBJECT IDENTIFIER contents (decoder) -/
+
+theorem shl_7 (s : Nat) : Py.shl (s : Int) 7 = ((s * 128 : Nat) : Int) := by
+  show (s : Int) * 2 ^ (7 : Int).toNat = _
+  simp only [show (7 : Int).toNat = 7 from rfl]
+  omega
+
+theorem idx_bytes (bs : Bytes) (i : Nat) (h : i < bs.length) :
+    Py.idx (bytesInts bs) (i : Int) = .ok ((bs[i].toNat : Nat) : Int) := by
+  unfold Py.idx
+  have h0 : ¬ ((i : Int) < 0) := by omega
+  simp only [h0, if_false, Int.toNat_natCast]
+  simp [bytesInts, h]
+  rfl
+
+theorem len_bytes (bs : Bytes) : Py.len (bytesInts bs) = ((bs.length : Nat) : Int) := by
+  simp [Py.len, bytesInts]
+
+/-- the inner loop seen from the model's side: follow continuation octets -/
+def scan : Nat → Nat → Nat → Bytes → Option (Nat × Nat × Bytes)
+  | 0, _, _, _ => none
+  | f + 1, s, nb, rest =>
+    if nb < 128 then some (s, nb, rest)
+    else match rest with
+      | [] => none
+      | b :: r => scan f (s * 128 + nb % 128) b.toNat r
+
+theorem scan_rest_le : ∀ (f s nb : Nat) (rest : Bytes) (s' nb' : Nat) (rest' : Bytes),
+    scan f s nb rest = some (s', nb', rest') → rest'.length ≤ rest.length
+  | 0, _, _, _, _, _, _, h => by simp [scan] at h
+  | f + 1, s, nb, rest, s', nb', rest', h => by
+    simp only [scan] at h
+    by_cases hn : nb < 128
+    · simp only [hn, if_true, Option.some.injEq, Prod.mk.injEq] at h
+      rw [← h.2.2]; exact Nat.le_refl _
+    · simp only [hn, if_false] at h
+      cases rest with
+      | nil => simp at h
+      | cons b r =>
+        have := scan_rest_le f _ _ r s' nb' rest' h
+        simp only [List.length_cons]; omega
+
+/-- the translated inner loop follows `scan` -/
+theorem oidDecode_loop2_spec (bs : Bytes) (oid : Py.Tup) : ∀ (f : Nat) (s nb i : Nat), i ≤ bs.length →
+    bs.length - i < f →
+    GenK.oidDecode_loop2 (bs.length : Int) (bytesInts bs) oid f (s : Int) (nb : Int) (i : Int) =
+      (match scan f s nb (bs.drop i) with
+       | none => .error (.lib "SubstrateUnderrunError")
+       | some (s', nb', rest') => .ok ((s' : Int), (nb' : Int), ((bs.length - rest'.length : Nat) : Int)))
+  | 0, _, _, _, _, hf => by omega
+  | f + 1, s, nb, i, hi, hf => by
+    unfold GenK.oidDecode_loop2 scan
+    by_cases hn : nb < 128
+    · have : ¬ ((nb : Int) ≥ 128) := by omega
+      simp only [this, decide_false, Bool.false_eq_true, if_false, hn, if_true, pure, Except.pure]
+      simp only [List.length_drop]
+      congr 3
+      omega
+    · have hge : ((nb : Int) ≥ 128) := by omega
+      simp only [hge, decide_true, if_true, hn, if_false, shl_7, band_127]
+      by_cases hend : i = bs.length
+      · subst hend
+        have : ((bs.length : Int) ≥ (bs.length : Int)) := by omega
+        simp [this, List.drop_length]
+        rfl
+      · have hlt : i < bs.length := by omega
+        have : ¬ ((i : Int) ≥ (bs.length : Int)) := by omega
+        simp only [this, decide_false, Bool.false_eq_true, if_false, bind, Except.bind, idx_bytes bs i hlt]
+        have hdrop : bs.drop i = bs[i] :: bs.drop (i + 1) := (List.drop_eq_getElem_cons hlt)
+        rw [hdrop]
+        simp only
+        have ih := oidDecode_loop2_spec bs oid f (s * 128 + nb % 128) bs[i].toNat (i + 1) (by omega) (by omega)
+        have e1 : ((s * 128 : Nat) : Int) + ((nb % 128 : Nat) : Int) = ((s * 128 + nb % 128 : Nat) : Int) := by omega
+        have e2 : (i : Int) + 1 = ((i + 1 : Nat) : Int) := by omega
+        rw [e1, e2, ih]
+
+theorem scan_suffix' : ∀ (f s nb : Nat) (rest : Bytes) (s' nb' : Nat) (rest' : Bytes),
+    scan f s nb rest = some (s', nb', rest') → ∃ pre, rest = pre ++ rest'
+  | 0, _, _, _, _, _, _, h => by simp [scan] at h
+  | f + 1, s, nb, rest, s', nb', rest', h => by
+    simp only [scan] at h
+    by_cases hn : nb < 128
+    · simp only [hn, if_true, Option.some.injEq, Prod.mk.injEq] at h
+      exact ⟨[], by simp [h.2.2]⟩
+    · simp only [hn, if_false] at h
+      cases rest with
+      | nil => simp at h
+      | cons b r =>
+        obtain ⟨pre, hp⟩ := scan_suffix' f _ _ r s' nb' rest' h
+        exact ⟨b :: pre, by simp [hp]⟩
+
+theorem scan_suffix (bs : Bytes) (j f s nb : Nat) (s' nb' : Nat) (rest rest' : Bytes) (hr : bs.drop j = rest)
+    (h : scan f s nb rest = some (s', nb', rest')) : bs.drop (bs.length - rest'.length) = rest' := by
+  obtain ⟨pre, hp⟩ := scan_suffix' f s nb rest s' nb' rest' h
+  have hb : bs = (bs.take j ++ pre) ++ rest' := by
+    rw [List.append_assoc, ← hp, ← hr, List.take_append_drop]
+  have hl : bs.length - rest'.length = (bs.take j ++ pre).length := by
+    have := congrArg List.length hb
+    simp only [List.length_append] at this ⊢
+    omega
+  rw [hl]
+  generalize hq : List.take j bs ++ pre = q at hb ⊢
+  subst hb
+  exact List.drop_left
+
+/-- the model's sub-identifier loop follows the same scan -/
+theorem decodeArcs_some_scan : ∀ (f : Nat) (s : Nat) (b : UInt8) (rest : Bytes), rest.length < f →
+    decodeArcs (some s) (b :: rest) =
+      (match scan f s b.toNat rest with
+       | none => .error .underrun
+       | some (s', nb', rest') => (decodeArcs none rest').map ((s' * 128 + nb') :: ·))
+  | 0, _, _, _, hf => by omega
+  | f + 1, s, b, rest, hf => by
+    unfold scan
+    by_cases hn : b.toNat < 128
+    · simp [decodeArcs, hn]
+    · simp only [decodeArcs, hn, if_false]
+      cases rest with
+      | nil => simp [decodeArcs]
+      | cons b' r =>
+        simp only
+        exact decodeArcs_some_scan f _ b' r (by simp only [List.length_cons] at hf; omega)
+
+/-- outcome of the translated decoder, in the vocabulary of the model -/
+def liftArcs (len : Nat) (oid : List Nat) : Res (List Nat) → Py.M (Int × Py.Tup)
+  | .ok arcs => .ok ((len : Int), ints (oid ++ arcs))
+  | .error .underrun => .error (.lib "SubstrateUnderrunError")
+  | .error _ => .error (.lib "PyAsn1Error")
+
+theorem liftArcs_map (len : Nat) (oid : List Nat) (a : Nat) (r : Res (List Nat)) :
+    liftArcs len oid (r.map (a :: ·)) = liftArcs len (oid ++ [a]) r := by
+  cases r with
+  | ok arcs => simp [liftArcs, Except.map]
+  | error e => cases e <;> simp [liftArcs, Except.map]
+
+theorem decodeArcs_no_fuel : ∀ (st : Option Nat) (l : Bytes), decodeArcs st l ≠ .error .fuel ∧ decodeArcs st l ≠ .error .refused := by
+  intro st l
+  induction l generalizing st with
+  | nil => cases st <;> simp [decodeArcs]
+  | cons b rest ih =>
+    cases st with
+    | none =>
+      simp only [decodeArcs]
+      by_cases h1 : b.toNat < 128
+      · simp only [h1, if_true]
+        have := ih none
+        cases hd : decodeArcs none rest with
+        | ok a => simp [Except.map]
+        | error e => rw [hd] at this; simpa [Except.map] using this
+      · simp only [h1, if_false]
+        by_cases h2 : b.toNat = 128
+        · simp [h2]
+        · simp only [h2, if_false]; exact ih _
+    | some acc =>
+      simp only [decodeArcs]
+      by_cases h1 : b.toNat < 128
+      · simp only [h1, if_true]
+        have := ih none
+        cases hd : decodeArcs none rest with
+        | ok a => simp [Except.map]
+        | error e => rw [hd] at this; simpa [Except.map] using this
+      · simp only [h1, if_false]; exact ih _
+
+theorem ints_append (a b : List Nat) : ints (a ++ b) = ints a ++ ints b := by simp [ints]
+
+/-- the translated outer loop computes the model's `decodeArcs` from the current position -/
+theorem oidDecode_loop1_spec (bs : Bytes) : ∀ (f i : Nat) (oid : List Nat), i ≤ bs.length → bs.length - i < f →
+    GenK.oidDecode_loop1 (bs.length : Int) (bytesInts bs) f (i : Int) (ints oid) =
+      liftArcs bs.length oid (decodeArcs none (bs.drop i))
+  | 0, _, _, _, hf => by omega
+  | f + 1, i, oid, hi, hf => by
+    unfold GenK.oidDecode_loop1
+    by_cases hend : i = bs.length
+    · subst hend
+      have : ¬ ((bs.length : Int) < (bs.length : Int)) := by omega
+      simp [this, List.drop_length, decodeArcs, liftArcs, pure, Except.pure]
+    · have hlt : i < bs.length := by omega
+      have hc : ((i : Int) < (bs.length : Int)) := by omega
+      have hdrop : bs.drop i = bs[i] :: bs.drop (i + 1) := List.drop_eq_getElem_cons hlt
+      have e2 : (i : Int) + 1 = ((i + 1 : Nat) : Int) := by omega
+      simp only [hc, decide_true, if_true, bind, Except.bind, idx_bytes bs i hlt, hdrop, e2]
+      have hb256 : bs[i].toNat < 256 := UInt8.toNat_lt _
+      by_cases h1 : bs[i].toNat < 128
+      · have : ((bs[i].toNat : Nat) : Int) < 128 := by omega
+        simp only [this, decide_true, if_true, pure, Except.pure, decodeArcs, h1]
+        rw [liftArcs_map]
+        have ih := oidDecode_loop1_spec bs f (i + 1) (oid ++ [bs[i].toNat]) (by omega) (by omega)
+        rw [ints_append] at ih
+        exact ih
+      · have hn1 : ¬ (((bs[i].toNat : Nat) : Int) < 128) := by omega
+        simp only [hn1, decide_false, Bool.false_eq_true, if_false, decodeArcs, h1]
+        by_cases h2 : bs[i].toNat = 128
+        · have hg : ¬ (((bs[i].toNat : Nat) : Int) > 128) := by omega
+          have he : (((bs[i].toNat : Nat) : Int) = 128) := by omega
+          simp [hg, he, h2, liftArcs]
+          rfl
+        · have hg : (((bs[i].toNat : Nat) : Int) > 128) := by omega
+          simp only [hg, decide_true, if_true, h2, if_false]
+          have hl2 := oidDecode_loop2_spec bs (ints oid) (bs.length + 1) 0 bs[i].toNat (i + 1) (by omega) (by omega)
+          have hfuel : ((bs.length : Int).toNat + 1) = bs.length + 1 := by omega
+          rw [hfuel]
+          rw [show (0 : Int) = ((0 : Nat) : Int) from rfl, hl2]
+          -- the model, from the same point
+          have hsc := scan_rest_le (bs.length + 1) 0 bs[i].toNat (bs.drop (i + 1))
+          have hne : ¬ bs[i].toNat < 128 := h1
+          cases hrest : bs.drop (i + 1) with
+          | nil =>
+            simp [scan, hne, decodeArcs, liftArcs]
+          | cons b' r =>
+            have hm := decodeArcs_some_scan bs.length (bs[i].toNat % 128) b' r (by
+              have : (bs.drop (i + 1)).length = bs.length - (i + 1) := List.length_drop
+              rw [hrest] at this; simp only [List.length_cons] at this; omega)
+            have hscan : scan (bs.length + 1) 0 bs[i].toNat (b' :: r) = scan bs.length (bs[i].toNat % 128) b'.toNat r := by
+              simp [scan, hne]
+            rw [hscan, hm]
+            cases hs : scan bs.length (bs[i].toNat % 128) b'.toNat r with
+            | none => simp [liftArcs]
+            | some tr =>
+              obtain ⟨s', nb', rest'⟩ := tr
+              simp only
+              have hle := scan_rest_le _ _ _ _ _ _ _ hs
+              have hrl : (b' :: r).length = bs.length - (i + 1) := by rw [← hrest]; exact List.length_drop
+              simp only [List.length_cons] at hrl
+              have hj : bs.length - rest'.length ≤ bs.length := by omega
+              have ih := oidDecode_loop1_spec bs f (bs.length - rest'.length) (oid ++ [s' * 128 + nb']) hj (by omega)
+              have hdr : bs.drop (bs.length - rest'.length) = rest' := by
+                -- rest' is a suffix of bs: it is what scan left of bs.drop (i+1)
+                exact scan_suffix bs (i + 1) _ _ _ _ _ (b' :: r) rest' hrest (by rw [hscan]; exact hs)
+              rw [hdr] at ih
+              rw [liftArcs_map, shl_7]
+              have e3 : ((s' * 128 : Nat) : Int) + (nb' : Int) = ((s' * 128 + nb' : Nat) : Int) := by omega
+              rw [e3]
+              have : ints oid ++ [((s' * 128 + nb' : Nat) : Int)] = ints (oid ++ [s' * 128 + nb']) := by simp [ints]
+              rw [this]
+              exact ih
+
+theorem decodeArcs_some_ne_nil : ∀ (l : Bytes) (acc : Nat) (arcs : List Nat), decodeArcs (some acc) l = .ok arcs → arcs ≠ []
+  | [], _, _, h => by simp [decodeArcs] at h
+  | b :: rest, acc, arcs, h => by
+    simp only [decodeArcs] at h
+    by_cases h1 : b.toNat < 128
+    · simp only [h1, if_true] at h
+      cases hd : decodeArcs none rest with
+      | ok a => rw [hd] at h; simp only [Except.map, Except.ok.injEq] at h; rw [← h]; simp
+      | error e => rw [hd] at h; simp [Except.map] at h
+    · simp only [h1, if_false] at h
+      exact decodeArcs_some_ne_nil rest _ arcs h
+
+theorem decodeArcs_none_ne_nil (b : UInt8) (rest : Bytes) (arcs : List Nat) (h : decodeArcs none (b :: rest) = .ok arcs) :
+    arcs ≠ [] := by
+  simp only [decodeArcs] at h
+  by_cases h1 : b.toNat < 128
+  · simp only [h1, if_true] at h
+    cases hd : decodeArcs none rest with
+    | ok a => rw [hd] at h; simp only [Except.map, Except.ok.injEq] at h; rw [← h]; simp
+    | error e => rw [hd] at h; simp [Except.map] at h
+  · simp only [h1, if_false] at h
+    by_cases h2 : b.toNat = 128
+    · simp [h2] at h
+    · simp only [h2, if_false] at h
+      exact decodeArcs_some_ne_nil rest _ arcs h
+
+/-- outcome of `oidFromContent`, in the vocabulary of the translated code -/
+def liftOidDec : Res (List Nat) → Py.M Py.Tup
+  | .ok arcs => .ok (ints arcs)
+  | .error .underrun => .error (.lib "SubstrateUnderrunError")
+  | .error _ => .error (.lib "PyAsn1Error")
+
+/-- **the OBJECT IDENTIFIER payload decoder as it is in the source** (the computation of
+    `ObjectIdentifierPayloadDecoder.valueDecoder` between `octs2ints` and the final `yield`) **computes
+    the model's `oidFromContent`** for every non-empty contents: same arcs, the same refusal of a leading
+    0x80 octet, `SubstrateUnderrunError` exactly when the last sub-identifier is unfinished -/
+theorem oidDecode_kernel (bs : Bytes) (hne : bs ≠ []) :
+    GenK.oidDecode (bytesInts bs) = liftOidDec (oidFromContent bs) := by
+  unfold GenK.oidDecode
+  have hl : GenK.oidDecode_loop1 (bs.length : Int) (bytesInts bs) (bs.length + 1) (0 : Int) ([] : Py.Tup) =
+      liftArcs bs.length [] (decodeArcs none (bs.drop 0)) :=
+    oidDecode_loop1_spec bs (bs.length + 1) 0 [] (by omega) (by omega)
+  simp only [bind, Except.bind, len_bytes]
+  have hfuel : ((bs.length : Int).toNat + 1) = bs.length + 1 := by omega
+  rw [hfuel, hl, List.drop_zero]
+  cases bs with
+  | nil => exact absurd rfl hne
+  | cons b rest =>
+    simp only [oidFromContent]
+    cases hd : decodeArcs none (b :: rest) with
+    | error e =>
+      have hnf := decodeArcs_no_fuel none (b :: rest)
+      rw [hd] at hnf
+      cases e <;> simp_all [liftArcs, liftOidDec]
+    | ok arcs =>
+      have hna := decodeArcs_none_ne_nil b rest arcs hd
+      cases arcs with
+      | nil => exact absurd rfl hna
+      | cons h tl =>
+        simp only [liftArcs, List.nil_append, ints, List.map_cons]
+        have hidx : ∀ (x : Int) (l : Py.Tup), Py.idx (x :: l) 0 = .ok x := by intro x l; simp [Py.idx]; rfl
+        have hsl : ∀ (x : Int) (l : Py.Tup), Py.sliceFrom (x :: l) 1 = l := by intro x l; simp [Py.sliceFrom]
+        simp only [hidx, hsl, pure, Except.pure]
+        have hcast : Int.ofNat h = (h : Int) := rfl
+        simp only [hcast]
+        have h0 : (0 : Int) ≤ (h : Int) := by omega
+        by_cases c1 : h ≤ 39
+        · have : ((h : Int) ≤ 39) := by omega
+          simp [h0, this, c1, liftOidDec, ints]
+        · have n1 : ¬ ((h : Int) ≤ 39) := by omega
+          by_cases c2 : h ≤ 79
+          · have a1 : ((40 : Int) ≤ (h : Int)) := by omega
+            have a2 : ((h : Int) ≤ 79) := by omega
+            simp only [h0, n1, a1, a2, decide_true, decide_false, Bool.and_false, Bool.and_self, Bool.false_eq_true, if_false,
+              if_true, c1, c2, liftOidDec, ints, List.map_cons, List.cons_append, List.nil_append]
+            congr 3
+            show (h : Int) - 40 = ((h - 40 : Nat) : Int)
+            omega
+          · have a1 : ((40 : Int) ≤ (h : Int)) := by omega
+            have a2 : ¬ ((h : Int) ≤ 79) := by omega
+            have a3 : ((h : Int) ≥ 80) := by omega
+            simp only [h0, n1, a1, a2, a3, decide_true, decide_false, Bool.and_false, Bool.and_self, Bool.false_eq_true, if_false,
+              if_true, c1, c2, liftOidDec, ints, List.map_cons, List.cons_append, List.nil_append]
+            congr 3
+            show (h : Int) - 80 = ((h - 80 : Nat) : Int)
+            omega
+
+end Asn1.Kernels
